@@ -19,6 +19,8 @@ SPEC = {
         # a (re)started instance must receive the cluster's notification log at join time: the application registers its
         # states before it joins (C19's engine: real memberlist; the order in app/app.go is read from the source)
         {"name": "mesh", "pkg": "./mesh", "search_cases": 4, "timeout_quick": 400, "only": ["full_state_superset"]},
+        # the replicated notification log is what keeps later-positioned instances silent: an older entry must never replace a newer one (C10's engine)
+        {"name": "nflog", "pkg": "./nflog", "search_cases": 8000, "quick_cases": 1200, "only": ["merge_monotone", "fold_merge_perm"]},
     ],
     "rule": "1-3 REAL pipelines (PipelineBuilder.New incl. the real ClusterWaitStage, wait = position x 15 s, every assignment of positions) each on its own real "
             "nflog.Log, joined by a scripted gossip channel (per-link delay below / above the peer timeout, loss, late re-delivery of everything ever broadcast), "
